@@ -190,7 +190,56 @@ fn orders(vars: &[(String, String)]) -> Vec<Vec<(String, String)>> {
     acc
 }
 
+/// Sort key shared with the driver (plain byte order of the fields joined by control characters).
+fn outcome_key(o: &Value) -> String {
+    let list = |v: &Value| v.as_array().map(|a| a.iter().map(|x| x.as_str().unwrap_or("").to_string()).collect::<Vec<_>>().join("\u{2}")).unwrap_or_default();
+    format!("{}\u{1}{}\u{1}{}\u{1}{}", list(&o["loc"]), list(&o["hf"]), o["bf"].as_str().unwrap_or(""), o["target"].as_str().unwrap_or("\u{3}"))
+}
+
+/// `{"kind":"sub","vars":[[name,value]..],"ts":[template..]}`: the variable list goes through the real `Rule::variables`
+/// (request-header variables with a default and no such header: value = default), then `StaticOrDynamic::replace`.
+fn run_sub(case: &Value) -> Obs {
+    let mut variables = Vec::new();
+    let vars = match get(case, "vars").as_array() {
+        Some(a) => a,
+        None => return Obs::invalid("vars"),
+    };
+    for v in vars {
+        match (v.get(0).and_then(|x| x.as_str()), v.get(1).and_then(|x| x.as_str())) {
+            (Some(n), Some(val)) => variables.push(json!({"name": n, "type": {"request_header": {"name": "X-None", "default": val}}, "transformers": []})),
+            _ => return Obs::invalid("var"),
+        }
+    }
+    if variables.is_empty() {
+        return Obs::invalid("no variables");
+    }
+    let ts = match strs(get(case, "ts"), "ts") {
+        Ok(t) => t,
+        Err(e) => return Obs::invalid(&e),
+    };
+    let rule: Rule = match serde_json::from_value(json!({"id": "r", "rank": 1, "source": {"path": "/x"}, "variables": variables})) {
+        Ok(r) => r,
+        Err(e) => return Obs::invalid(&format!("rule json: {e}")),
+    };
+    let request = Request::from_config(&RouterConfig::default(), "/x".to_string(), None, None, None, None, None);
+    let sorted = rule.variables(&std::collections::HashMap::new(), &request);
+    let outs: Vec<String> = ts.iter().map(|t| StaticOrDynamic::replace(t.clone(), &sorted)).collect();
+    let mut o = Obs::new(json!({"vars": sorted.iter().map(|(n, v)| json!([n, v])).collect::<Vec<_>>(), "outs": outs})).trivial(ts.iter().all(|t| !t.contains('@')));
+    o.tags.push("kind:sub".into());
+    o
+}
+
 fn run(case: &Value) -> Obs {
+    if get(case, "kind").as_str() == Some("sub") {
+        return run_sub(case);
+    }
+    // query strings (sorting, marketing parameters) are C09's: paths here have none, and start with '/'
+    for p in [s(case, "path"), s(get(case, "req"), "path")] {
+        match p {
+            Some(p) if p.starts_with('/') && !p.contains('?') => {}
+            _ => return Obs::invalid("path must start with '/' and contain no '?'"),
+        }
+    }
     let rj = match rule_json(case) {
         Ok(j) => j,
         Err(e) => return Obs::invalid(&e),
@@ -263,7 +312,7 @@ fn run(case: &Value) -> Obs {
     // `from_routes_rule` and `get_target` each call `variables` (each with its own HashMap order)
     let strip = |o: &Value| json!({"loc": o["loc"], "hf": o["hf"], "bf": o["bf"]});
     let actual_ok = outs.iter().any(|o| strip(o) == actual) && outs.iter().any(|o| o["target"] == json!(target));
-    outs.sort_by_key(|o| o.to_string());
+    outs.sort_by_key(outcome_key);
     if captured.len() > 0 { tags.push(format!("captured:{}", captured.len())); }
     let mut o = Obs::new(json!({"match": true, "outs": outs})).trivial(n_markers == 0);
     o.tags = tags;
@@ -276,11 +325,358 @@ fn run(case: &Value) -> Obs {
     o
 }
 
+// ---------------------------------------------------------------------------------------------------------
+// generator
+
+struct Kind {
+    regex: &'static str,
+    /// values accepted by `^(?:regex)$`
+    acc: &'static [&'static str],
+    /// values rejected (case-sensitively)
+    rej: &'static [&'static str],
+    /// characters that no accepted value contains, even case-insensitively (the literal delimiters that make the decomposition unique)
+    excl: &'static str,
+}
+
+const KINDS: &[Kind] = &[
+    Kind { regex: "[0-9]+", acc: &["7", "42", "2024", "007"], rej: &["", "4a", "x", "1 2", "١"], excl: "/.-_;=abcxyzABC" },
+    Kind { regex: "[a-z]+", acc: &["abc", "z", "hello", "ab"], rej: &["", "a1", "a_b", "4"], excl: "/.-_;=0123" },
+    Kind { regex: "[a-z0-9-]+?", acc: &["a-b", "x1", "post-42", "b"], rej: &["", "a_b", "a.b"], excl: "/._;=" },
+    Kind { regex: "(?:foo|bar|b)", acc: &["foo", "bar", "b"], rej: &["", "fo", "foobar", "baz"], excl: "/.-_;=xyz0123" },
+    Kind { regex: "en|fr|de", acc: &["en", "fr", "de"], rej: &["", "e", "enfr", "it"], excl: "/.-_;=xyz0123" },
+    Kind { regex: "[0-9a-f]{8}-[0-9a-f]{4}-[0-9a-f]{4}-[0-9a-f]{4}-[0-9a-f]{12}", acc: &["123e4567-e89b-12d3-a456-426614174000", "00000000-0000-0000-0000-000000000000"], rej: &["123e4567", "123e4567-e89b-12d3-a456-42661417400", "g23e4567-e89b-12d3-a456-426614174000"], excl: "/._;=xyz" },
+    Kind { regex: "[0-9]{4}-[0-9]{2}-[0-9]{2}", acc: &["2024-01-31", "1999-12-01"], rej: &["2024-1-31", "24-01-31", "2024-01-311", ""], excl: "/._;=abcxyz" },
+    Kind { regex: ".+?", acc: &["q", "a/b", "x.y", "@b", "x@id", "a b", "(z)*", "%41", "\u{5d0}\u{65e5}", "A-Z"], rej: &[""], excl: "" },
+    Kind { regex: ".*", acc: &["", "q", "p-q", "@a", "\u{20000}x"], rej: &["a\nb"], excl: "" },
+    Kind { regex: "[^/]+", acc: &["q", "x.y", "a-b_c", "@ab", "caf\u{5d0}", "A"], rej: &["", "a/b"], excl: "/" },
+    Kind { regex: "[A-Za-z_]\\w*", acc: &["Ab_1", "x", "fooBar", "XMLHttp"], rej: &["1a", "", "a-b"], excl: "/.-;=" },
+    Kind { regex: "\\d{2,3}", acc: &["12", "123"], rej: &["1", "1234", "ab"], excl: "/.-_;=abcxyz" },
+    Kind { regex: "[a-z\u{5d0}]+", acc: &["abc", "%D7"], rej: &["", "\u{5d0}x!"], excl: "/.-_;=" },
+];
+
+const NAMES: &[&str] = &["a", "ab", "abc", "b", "id", "id2", "year", "m", "ID", "x_1", "slug", "idx"];
+const ODD_NAMES: &[&str] = &["a-b", "2a", "n\u{5d0}", "a@b", "", "a b", "a.b"];
+const LITS: &[&str] = &["p", "blog", "a.b", "x+y", "(z)", "v[1]", "a|b", "c$", "A", "Ab", "%20", "a b", "\u{65e5}", "~u", "at@", "x#y", "q&r", "{k}"];
+const DELIMS: &[&str] = &["/", "-", ".", "_", "/x/", ";", "="];
+
+fn tr(rng: &mut Prng) -> Value {
+    match rng.below(16) {
+        0 | 1 => json!({"type": "lowercase", "opts": null}),
+        2 | 3 => json!({"type": "uppercase", "opts": null}),
+        4 => json!({"type": "camelize", "opts": null}),
+        5 => json!({"type": "dasherize", "opts": null}),
+        6 => json!({"type": "underscorize", "opts": []}),
+        7 | 8 | 9 => {
+            let sm = *rng.pick(&["a", "-", "", "ab", "b", "%", "0", "A"]);
+            let w = *rng.pick(&["", "X", "@id", "--", "a", "\u{5d0}"]);
+            match rng.below(10) {
+                0 => json!({"type": "replace", "opts": [["something", sm]]}),
+                1 => json!({"type": "replace", "opts": null}),
+                _ => json!({"type": "replace", "opts": [["something", sm], ["with", w]]}),
+            }
+        }
+        10 | 11 | 12 | 13 => {
+            let f = *rng.pick(&["0", "1", "2", "3", "7", "x", "+1", "-1", "", "18446744073709551616", "01"]);
+            let t = *rng.pick(&["", "2", "3", "5", "100", "x", "0", "1", "+4", "18446744073709551615"]);
+            match rng.below(12) {
+                0 => json!({"type": "slice", "opts": [["from", f]]}),
+                1 => json!({"type": "slice", "opts": null}),
+                2 => json!({"type": "slice", "opts": [["to", t], ["from", f], ["from", "1"]]}),
+                _ => json!({"type": "slice", "opts": [["from", f], ["to", t]]}),
+            }
+        }
+        14 => json!({"type": "frobnicate", "opts": null}),
+        _ => json!({"type": null, "opts": null}),
+    }
+}
+
+fn trs(rng: &mut Prng) -> Value {
+    let n = match rng.below(10) { 0..=4 => 0, 5 | 6 => 1, 7 | 8 => 2, _ => 3 };
+    Value::Array((0..n).map(|_| tr(rng)).collect())
+}
+
+struct M {
+    name: String,
+    kind: usize,
+    value: String,
+    accepted: bool,
+}
+
+/// A template over the markers `ms[idx..]` (each used once), literal pieces in between; returns (template, instantiation, delimited?)
+fn template(rng: &mut Prng, ms: &[M], sep_first: &str, lits: bool, ic: bool) -> (String, String, bool) {
+    let mut t = String::from(sep_first);
+    let mut inst = String::from(sep_first);
+    let mut delim = true;
+    for (i, m) in ms.iter().enumerate() {
+        if lits && rng.chance(1, 3) {
+            let l = *rng.pick(LITS);
+            t.push_str(l);
+            inst.push_str(&if ic && rng.chance(1, 2) { flip_case(rng, l) } else { l.to_string() });
+            if rng.chance(2, 3) {
+                t.push('/');
+                inst.push('/');
+            }
+        }
+        t.push('@');
+        t.push_str(&m.name);
+        inst.push_str(&m.value);
+        if i + 1 < ms.len() {
+            if rng.chance(1, 8) {
+                // adjacent markers: ambiguous on purpose
+                delim = false;
+            } else {
+                let d = *rng.pick(DELIMS);
+                t.push_str(d);
+                inst.push_str(d);
+                let d0 = d.chars().next().unwrap();
+                if !KINDS[m.kind].excl.contains(d0) {
+                    delim = false;
+                }
+            }
+        } else if rng.chance(1, 3) {
+            let d = *rng.pick(DELIMS);
+            t.push_str(d);
+            inst.push_str(d);
+            let d0 = d.chars().next().unwrap();
+            if !KINDS[m.kind].excl.contains(d0) {
+                delim = false;
+            }
+            if rng.chance(1, 2) {
+                let l = *rng.pick(LITS);
+                t.push_str(l);
+                inst.push_str(&if ic && rng.chance(1, 2) { flip_case(rng, l) } else { l.to_string() });
+            }
+        }
+    }
+    (t, inst, delim)
+}
+
+fn out_template(rng: &mut Prng, names: &[String]) -> String {
+    let mut t = String::new();
+    let n = rng.range(1, 5);
+    for _ in 0..n {
+        match rng.below(12) {
+            0 => t.push_str(*rng.pick(&["/", "/t/", "-", "x", "?q=", "2", "c", "d2", " "])),
+            1 => t.push('@'),
+            2 => {
+                t.push('@');
+                t.push_str(*rng.pick(NAMES));
+            }
+            3 => {
+                // a reference immediately followed by text that may extend the name
+                t.push('@');
+                t.push_str(rng.pick(names).as_str());
+                t.push_str(*rng.pick(&["2", "b", "c", "x", "_1", "bc"]));
+            }
+            4 => {
+                // adjacent references (join-prone)
+                t.push('@');
+                t.push_str(rng.pick(names).as_str());
+                t.push('@');
+                t.push_str(rng.pick(names).as_str());
+            }
+            _ => {
+                t.push_str(*rng.pick(&["/", "-", "/p/", ".", "="]));
+                t.push('@');
+                t.push_str(rng.pick(names).as_str());
+            }
+        }
+    }
+    if rng.chance(1, 12) {
+        t.push('@');
+    }
+    t
+}
+
+fn flip_case(rng: &mut Prng, s: &str) -> String {
+    s.chars().map(|c| if c.is_ascii_alphabetic() && rng.chance(1, 2) { if c.is_ascii_lowercase() { c.to_ascii_uppercase() } else { c.to_ascii_lowercase() } } else { c }).collect()
+}
+
+fn gen_case(rng: &mut Prng) -> Value {
+    let cfg = json!({"ipc": rng.chance(1, 4), "ihc": rng.chance(1, 4), "ihdc": rng.chance(1, 6)});
+    let ipc = cfg["ipc"].as_bool().unwrap();
+    let k = match rng.below(10) { 0 | 1 => 1, 2..=5 => 2, 6..=8 => 3, _ => 4 };
+    // names: mostly from the prefix-sharing pool, distinct
+    let mut names: Vec<String> = Vec::new();
+    while names.len() < k {
+        let n = if rng.chance(1, 40) { *rng.pick(ODD_NAMES) } else { *rng.pick(NAMES) };
+        if !names.iter().any(|x| x == n) || rng.chance(1, 60) {
+            names.push(n.to_string());
+        }
+    }
+    let all_accepted = rng.chance(3, 5);
+    // distribute the markers over path / host / header
+    let mut in_path: Vec<usize> = Vec::new();
+    let mut in_host: Vec<usize> = Vec::new();
+    let mut in_hdr: Vec<usize> = Vec::new();
+    for i in 0..k {
+        match rng.below(10) {
+            0..=5 => in_path.push(i),
+            6 | 7 => in_host.push(i),
+            _ => in_hdr.push(i),
+        }
+    }
+    let ihc = cfg["ihc"].as_bool().unwrap();
+    let mut ms: Vec<M> = Vec::new();
+    for (i, n) in names.iter().enumerate() {
+        let kind = rng.below(KINDS.len());
+        let accepted = all_accepted || rng.chance(2, 3);
+        let pool = if accepted { KINDS[kind].acc } else { KINDS[kind].rej };
+        let mut value = rng.pick(pool).to_string();
+        // where the layer matches case-insensitively the instantiation may use the other case
+        if ((ipc && in_path.contains(&i)) || (ihc && in_host.contains(&i))) && rng.chance(1, 2) {
+            value = flip_case(rng, &value);
+        }
+        ms.push(M { name: n.clone(), kind, value, accepted });
+    }
+    let pick = |idx: &Vec<usize>| -> Vec<&M> { idx.iter().map(|&i| &ms[i]).collect() };
+    let own = |v: Vec<&M>| -> Vec<M> { v.into_iter().map(|m| M { name: m.name.clone(), kind: m.kind, value: m.value.clone(), accepted: m.accepted }).collect() };
+    let mut delim = true;
+    let (mut path_t, mut path_i, d1) = template(rng, &own(pick(&in_path)), "/", true, ipc);
+    delim &= d1;
+    if rng.chance(1, 25) && !in_path.is_empty() {
+        // a marker used twice in one template (the capture regex gets a duplicate group name)
+        let m = &ms[in_path[0]];
+        path_t.push_str(&format!("/@{}", m.name));
+        path_i.push_str(&format!("/{}", m.value));
+    }
+    // values with '/' '?' '#' in a path would change the URL structure: keep '?' and '#' out of request paths
+    let (host_t, host_i) = if in_host.is_empty() {
+        if rng.chance(1, 6) { (Some("Example.org".to_string()), Some("Example.org".to_string())) } else { (None, if rng.chance(1, 3) { Some("other.org".to_string()) } else { None }) }
+    } else {
+        let (t, i, d) = template(rng, &own(pick(&in_host)), "", false, ihc);
+        delim &= d;
+        let suffix = *rng.pick(&[".example.org", ".Example.ORG", "", "-x.io"]);
+        (Some(format!("{t}{suffix}")), Some(format!("{i}{suffix}")))
+    };
+    let mut rule_hdrs = Vec::new();
+    let mut req_hdrs: Vec<Value> = Vec::new();
+    if !in_hdr.is_empty() {
+        let first = *rng.pick(&["", "v-", "V=", "lang "]);
+        let (t, i, d) = template(rng, &own(pick(&in_hdr)), first, false, false);
+        delim &= d;
+        let name = *rng.pick(&["X-Foo", "x-bar", "Accept-Language"]);
+        rule_hdrs.push(json!({"name": name, "value": t}));
+        let rname = if rng.chance(1, 2) { name.to_string() } else { flip_case(rng, name) };
+        if rng.chance(1, 8) {
+            req_hdrs.push(json!([rname.clone(), "zzz"]));
+        }
+        if rng.chance(1, 10) {
+            // the value embedded in a longer one: the trigger is searched unanchored
+            req_hdrs.push(json!([rname, format!("xx{i}yy")]));
+        } else {
+            req_hdrs.push(json!([rname, i]));
+        }
+    }
+    if rng.chance(1, 3) {
+        req_hdrs.push(json!(["X-Other", *rng.pick(&["o", "Other-Val", "a,b"])]));
+    }
+    if rng.chance(1, 8) {
+        req_hdrs.push(json!(["x-other", "second"]));
+    }
+    let req_path = path_i.clone();
+    // variables
+    let explicit = rng.chance(2, 5);
+    let mut vars = Vec::new();
+    let mut out_names: Vec<String> = names.clone();
+    if explicit {
+        out_names.clear();
+        let nv = rng.range(1, 4);
+        for _ in 0..nv {
+            let vname = if rng.chance(2, 3) { rng.pick(&names).clone() } else { rng.pick(NAMES).to_string() };
+            let v = match rng.below(10) {
+                0..=5 => json!({"name": vname, "kind": "marker", "arg": if rng.chance(5, 6) { rng.pick(&names).clone() } else { "nope".to_string() }, "tr": trs(rng)}),
+                6 => json!({"name": vname, "kind": "header", "arg": *rng.pick(&["X-Other", "x-foo", "Missing"]), "def": if rng.chance(1, 2) { json!("dflt") } else { Value::Null }, "tr": trs(rng)}),
+                7 => json!({"name": vname, "kind": "host", "tr": trs(rng)}),
+                8 => json!({"name": vname, "kind": *rng.pick(&["method", "scheme"]), "tr": trs(rng)}),
+                _ => json!({"name": vname, "kind": "path", "tr": trs(rng)}),
+            };
+            out_names.push(vname);
+            vars.push(v);
+        }
+    }
+    let markers: Vec<Value> = ms.iter().map(|m| json!({"name": m.name, "regex": KINDS[m.kind].regex, "tr": trs(rng)})).collect();
+    let target = match rng.below(12) {
+        0 => Value::Null,
+        1 => json!(""),
+        _ => json!(out_template(rng, &out_names)),
+    };
+    let hf: Vec<Value> = (0..rng.below(3)).map(|_| json!(out_template(rng, &out_names))).collect();
+    let bf: Vec<Value> = (0..rng.below(3)).map(|_| json!(out_template(rng, &out_names))).collect();
+    let inst: Vec<Value> = ms.iter().map(|m| json!([m.name, m.value])).collect();
+    json!({
+        "cfg": cfg, "markers": markers, "vars": vars, "path": path_t, "host": host_t, "hdrs": rule_hdrs,
+        "target": target, "hf": hf, "bf": bf,
+        "req": {"path": req_path, "host": host_i, "scheme": if rng.chance(1, 2) { json!("https") } else { Value::Null },
+                "method": if rng.chance(1, 2) { json!("GET") } else { Value::Null }, "hdrs": req_hdrs},
+        "inst": inst, "delim": delim, "acc": ms.iter().all(|m| m.accepted),
+    })
+}
+
+/// Substitution alone: `Rule::variables` (sort) + `StaticOrDynamic::replace` on explicit (name, value) lists.
+fn gen_sub(rng: &mut Prng) -> Value {
+    let nv = rng.range(1, 5);
+    let vars: Vec<Value> = (0..nv)
+        .map(|_| json!([*rng.pick(&["a", "ab", "abc", "b", "bc", "id", "id2", "", "a@", "\u{5d0}"]), *rng.pick(&["", "b", "c", "x", "@a", "@b", "2", "bc", "@", "X@ab", "\u{65e5}"])]))
+        .collect();
+    let alphabet = ["@", "a", "b", "c", "@a", "@ab", "@b", "@id", "2", "/", "@abc", "@bc"];
+    let ts: Vec<Value> = (0..rng.range(1, 3)).map(|_| json!((0..rng.range(0, 6)).map(|_| *rng.pick(&alphabet)).collect::<String>())).collect();
+    json!({"kind": "sub", "vars": vars, "ts": ts})
+}
+
 fn gen(args: &Args, emit: &mut dyn FnMut(Value)) {
     let mut rng = Prng::new(args.seed);
-    for _ in 0..args.n {
-        let _ = rng.next();
-        emit(json!({"cfg": {}, "markers": [{"name": "id", "regex": "[0-9]+"}], "path": "/a/@id", "target": "/t/@id", "req": {"path": "/a/12"}}));
+    if args.tier == "thorough" {
+        // exhaustive small scope of the substitution: every template of length <= 5 over {@, a, b} x every list of <= 2
+        // variables over names {a, b, ab} x values {"", b, x} (+ one three-variable family)
+        let sym = ['@', 'a', 'b'];
+        let mut templates: Vec<String> = vec![String::new()];
+        let mut frontier: Vec<String> = vec![String::new()];
+        for _ in 0..5 {
+            let mut next = Vec::new();
+            for t in &frontier {
+                for c in sym {
+                    let mut t2 = t.clone();
+                    t2.push(c);
+                    next.push(t2);
+                }
+            }
+            templates.extend(next.iter().cloned());
+            frontier = next;
+        }
+        let names = ["a", "b", "ab"];
+        let values = ["", "b", "x"];
+        let mut var_lists: Vec<Vec<(usize, usize)>> = Vec::new();
+        for n1 in 0..3 {
+            for v1 in 0..3 {
+                var_lists.push(vec![(n1, v1)]);
+                for n2 in 0..3 {
+                    for v2 in 0..3 {
+                        var_lists.push(vec![(n1, v1), (n2, v2)]);
+                    }
+                }
+            }
+        }
+        for v1 in 0..3 {
+            for v2 in 0..3 {
+                for v3 in 0..3 {
+                    var_lists.push(vec![(0, v1), (2, v2), (1, v3)]);
+                }
+            }
+        }
+        for vl in &var_lists {
+            let vars: Vec<Value> = vl.iter().map(|(n, v)| json!([names[*n], values[*v]])).collect();
+            for chunk in templates.chunks(40) {
+                emit(json!({"kind": "sub", "vars": vars, "ts": chunk, "exh": true}));
+            }
+        }
+    }
+    for i in 0..args.n {
+        if i % 4 == 3 {
+            emit(gen_sub(&mut rng));
+        } else {
+            emit(gen_case(&mut rng));
+        }
     }
 }
 
